@@ -193,8 +193,11 @@ def handle_violation(prop, job, r, tier, builddir, log, here, wit_opts=None):
                 payload["verifier"]["witness_error"] = err or "no small (<= %d words) counterexample" % 4
         else:
             # no native harness for this family: keep the verifier's trace
-            tr, err = runner.trace_for(job, r["_bins"]["main"], f["property"], "sat", min(job.timeout, 600),
-                                       unwind=job.unwind)
+            if len(items) < 2:
+                tr, err = runner.trace_for(job, r["_bins"]["main"], f["property"], "sat", min(job.timeout, 300),
+                                           unwind=job.unwind)
+            else:
+                tr, err = None, "trace not generated (see the first replay files of this job)"
             payload["verifier"]["trace"] = _compact_trace(tr) if tr else err
             if job.family in REPLAYERS and tr:
                 try:
